@@ -141,6 +141,15 @@ func (w *webWriter) flushWithTrailer() {
 		if err := w.writeTrailer(); err != nil {
 			return // nothing
 		}
+	} else {
+		// Trailers-only response: the trailers travel as plain headers.
+		hdr := w.Header()
+		for key, val := range hdr {
+			if strings.HasPrefix(key, http.TrailerPrefix) {
+				delete(hdr, key)
+				hdr[strings.TrimPrefix(key, http.TrailerPrefix)] = val
+			}
+		}
 	}
 	w.Flush()
 }
